@@ -350,6 +350,29 @@ Definition swap_node (v : version) (m : shard_md) (from to : N) : shard_md * boo
   if accept then (mkMd (replace_in_list (m_ens m) from to) (m_removed m ++ [from]), true)
   else (m, false).
 
+(* swapNode as a whole: the controller keeps the shard metadata in memory ([ctl_mem]) and in the status
+   ([ctl_stored]).  After swapNodeInMetadata changed the memory, electLeader stores the in-memory metadata at its very
+   start (statusResource.UpdateShardMetadata) and only then talks to the servers; when the election fails swapNode
+   returns the error and undoes nothing: the new ensemble stays both in memory and in the status.
+   Outcomes: refused (membership check), election failed, swapped. *)
+Record ctl := mkCtl { ctl_mem : shard_md; ctl_stored : shard_md }.
+
+Inductive swap_result := SwapRefused | SwapElectionFailed | SwapDone.
+
+Definition swap_node_ctl (v : version) (c : ctl) (from to : N) (election_ok : bool)
+  : ctl * swap_result :=
+  let '(m', accepted) := swap_node v (ctl_mem c) from to in
+  if accepted then (mkCtl m' m', if election_ok then SwapDone else SwapElectionFailed)
+  else (c, SwapRefused).
+
+(* the tempting clean-up "restore the previous members in memory when the election failed" (not in the code) *)
+Definition swap_node_ctl_rollback (v : version) (c : ctl) (from to : N) (election_ok : bool)
+  : ctl * swap_result :=
+  let '(m', accepted) := swap_node v (ctl_mem c) from to in
+  if accepted then
+    if election_ok then (mkCtl m' m', SwapDone) else (mkCtl (ctl_mem c) m', SwapElectionFailed)
+  else (c, SwapRefused).
+
 (* ---------- a rebalance round ----------
    [snap]: shard id -> (anti-affinity rules of its namespace, ensemble) in the status snapshot the
    round was computed from; [reqs]: the (shard, from) pairs the balancer decides to move, in order
